@@ -63,6 +63,35 @@ class Edge:
         return f'{self.src.id}-{self.label}{c}->{self.dst.id}'
 
 
+def _clone_renamed(root: ast.AST, ren: Dict[str, str]) -> ast.AST:
+    """Copy of an AST subtree with the names in *ren* renamed (parents set inside the copy; the copy hangs where the
+    original hangs)."""
+    def cl(node):
+        if isinstance(node, list):
+            return [cl(x) for x in node]
+        if not isinstance(node, ast.AST):
+            return node
+        new = type(node)()
+        for f_, v_ in ast.iter_fields(node):
+            setattr(new, f_, cl(v_))
+        for a_, v_ in vars(node).items():
+            if a_ in ('_parent', '_alias_parent') or a_ in node._fields:
+                continue
+            setattr(new, a_, v_)
+        if isinstance(new, ast.Name) and new.id in ren:
+            new.id = ren[new.id]
+        elif isinstance(new, ast.arg) and new.arg in ren:
+            new.arg = ren[new.arg]
+        elif isinstance(new, ast.ExceptHandler) and new.name in ren:
+            new.name = ren[new.name]
+        return new
+    out = cl(root)
+    from .load import set_parents
+    set_parents(out)
+    out._parent = getattr(root, '_parent', None)
+    return out
+
+
 class _Ctx:
     """Entry of the builder's context stack."""
 
@@ -103,6 +132,8 @@ class CFG:
         self._loops: Tuple[ast.AST, ...] = ()
         self._inlining: List[str] = []
         self.cur_scope: Scope = scope          # scope whose body is currently being built (changes while inlining)
+        self._inline_frames: List[Set[str]] = []   # local names of the helpers on the inlining stack
+        self._rename_k = 0
         self.callee_cache: Dict[int, dict] = {}
         self._stack_sites: Dict[int, str] = {}
         self._cm_stack: List[dict] = []
@@ -816,6 +847,38 @@ class CFG:
                 self._node('inline_exit', e, name='<lambda>')
                 self.inline_values[id(e)] = (bound.body, {})
                 return
+            la = bound.args if isinstance(bound, ast.Lambda) else None
+            if la is not None and la.args and not (la.vararg or la.kwarg or la.kwonlyargs or la.posonlyargs or la.defaults) \
+                    and len(e.args) == len(la.args) and not e.keywords and not any(isinstance(a, ast.Starred) for a in e.args) \
+                    and not any(isinstance(x, ast.Lambda) for x in ast.walk(bound.body)):
+                # `runner(loop)` with runner bound to `lambda _loop: _loop.run_until_complete(aw)`: the lambda's
+                # parameters are bound to the arguments and its body is evaluated in the scope that wrote the lambda
+                names = [a.arg for a in la.args]
+                taken: Set[str] = set(self.scope.locals) | set(self.scope.params)
+                for fr in self._inline_frames:
+                    taken |= fr
+                ren = {}
+                for nm in names:
+                    if nm in taken:
+                        self._rename_k += 1
+                        ren[nm] = f'{nm}\u00b7{self._rename_k}'
+                body = _clone_renamed(bound.body, ren) if ren else bound.body
+                self._node('inline_enter', e, name='<lambda>')
+                for nm, arg in zip(names, e.args):
+                    self._node('store_name', arg, e.lineno, name=ren.get(nm, nm), value=arg, stmt=e, inlined_param=True)
+                saved_res, saved_scope = self.res, self.cur_scope
+                host = self._lambda_host(bound)
+                if host is not None:
+                    self.res, self.cur_scope = Resolver(host), host
+                self._inline_frames.append({ren.get(nm, nm) for nm in names})
+                try:
+                    self._expr(body)
+                finally:
+                    self.res, self.cur_scope = saved_res, saved_scope
+                    self._inline_frames.pop()
+                self._node('inline_exit', e, name='<lambda>')
+                self.inline_values[id(e)] = (body, {ren.get(nm, nm): arg for nm, arg in zip(names, e.args)})
+                return
             if isinstance(bound, ast.Attribute):
                 synth = ast.Call(func=bound, args=list(e.args), keywords=list(e.keywords))
                 ast.copy_location(synth, e)
@@ -841,15 +904,17 @@ class CFG:
                     self._node('call', synth, synthetic_for=e, methodcaller_args=list(v.args[1:]), methodcaller_scope=host)
                     return
         self._node('call', e)
-        if self.expand_deferred and isinstance(e.func, ast.Attribute) and not e.keywords \
+        if self.expand_deferred and isinstance(e.func, ast.Attribute) and all(k.arg is not None for k in e.keywords) \
                 and not any(isinstance(a, ast.Starred) for a in e.args):
             fa = None
-            if e.func.attr == 'run_in_executor' and len(e.args) >= 2:
+            fkw: List[ast.keyword] = []
+            if e.func.attr == 'run_in_executor' and len(e.args) >= 2 and not e.keywords:
                 fa = e.args[1:]
             elif e.func.attr == 'submit' and len(e.args) >= 1:
                 fa = e.args
+                fkw = list(e.keywords)        # Executor.submit(fn, *args, **kwargs) calls fn(*args, **kwargs)
             if fa is not None:
-                synth = ast.Call(func=fa[0], args=list(fa[1:]), keywords=[])
+                synth = ast.Call(func=fa[0], args=list(fa[1:]), keywords=fkw)
                 ast.copy_location(synth, e)
                 synth._parent = getattr(e, '_parent', None)  # type: ignore[attr-defined]
                 target = self._inline_target(synth, awaited=False, any_module_helper=True)
@@ -958,7 +1023,9 @@ class CFG:
         f = e.func
         if any(isinstance(a, ast.Starred) for a in e.args) or any(k.arg is None for k in e.keywords):
             return None
-        if isinstance(f, ast.Name) and self._inlining and _depth < 2 and f.id in self.cur_scope.params:
+        ic0 = next((c for c in reversed(self.ctx) if c.kind == 'inline'), None)
+        if isinstance(f, ast.Name) and self._inlining and _depth < 2 and \
+                (getattr(ic0, 'renamed', {}).get(f.id, f.id) if ic0 is not None else f.id) in self.cur_scope.params:
             # a parameter of the helper being inlined that the caller bound to one of its own functions
             # (`self._helper(_load, x)` ... `await loader(item)`): the call is a call of that function, seen from the caller
             ic = next((c for c in reversed(self.ctx) if c.kind == 'inline'), None)
@@ -1082,11 +1149,38 @@ class CFG:
                 binding[prm] = defaults[prm]
         return t, [(prm, binding[prm]) for prm in allp]
 
+    def _hygienic(self, t: Scope, binding):
+        """Names local to helper *t* that are also names of the function being analysed or of a helper on the
+        inlining stack would be captured by the inlined copy (`def _spawn(self, coro)` called from
+        `def _schedule(self, coro)`): the helper is inlined from a clone with those names renamed.
+        Returns (function node to inline from, binding, {new name: old name})."""
+        tl = set(getattr(t, 'locals', ())) | set(t.params)
+        tl.discard('self')
+        if not tl:
+            return t.node, binding, {}
+        if any(c.kind in ('function', 'class') for c in t.children) or any(isinstance(x, ast.Lambda) for x in ast.walk(t.node)):
+            return t.node, binding, {}       # closures of the helper read its locals by their own names
+        taken: Set[str] = set(self.scope.locals) | set(self.scope.params)
+        for fr in self._inline_frames:
+            taken |= fr
+        # a parameter bound to the caller's variable of the same name is the same thing under the same name
+        same = {prm for prm, arg in binding if isinstance(arg, ast.Name) and arg.id == prm}
+        collide = {nm for nm in tl if nm in taken and nm not in same}
+        # ... names the helper shares with an enclosing scope it is nested in are not its own
+        if not collide:
+            return t.node, binding, {}
+        self._rename_k += 1
+        ren = {nm: f'{nm}\u00b7{self._rename_k}' for nm in collide}
+        fn = _clone_renamed(t.node, ren)
+        return fn, [(ren.get(prm, prm), arg) for prm, arg in binding], {v: k for k, v in ren.items()}
+
     def _inline(self, e: ast.Call, t: Scope, binding, assign_targets=None, assign_stmt=None, return_through=False) -> None:
+        fnode, binding, renamed = self._hygienic(t, binding)
         self._node('inline_enter', e, name=t.qualname, awaited=t.is_async, await_ast=parent(e) if t.is_async else None)
         for prm, arg in binding:
             self._node('store_name', arg, e.lineno, name=prm, value=arg, stmt=e, inlined_param=True)
         c = _Ctx('inline', node=e)
+        c.renamed = renamed
         c.returns = []
         c.assign_targets = assign_targets
         c.assign_stmt = assign_stmt
@@ -1100,8 +1194,9 @@ class CFG:
         saved_scope = self.cur_scope
         self.res = Resolver(t)
         self.cur_scope = t
+        self._inline_frames.append((set(getattr(t, 'locals', ())) | set(t.params)) - {'self'} | set(renamed))
         try:
-            self._build_body(t.node.body)
+            self._build_body(fnode.body)
             if self.cur and assign_targets:
                 # falling off the end returns None
                 none = ast.Constant(value=None)
@@ -1111,13 +1206,14 @@ class CFG:
             self.res = saved_res
             self.cur_scope = saved_scope
             self._inlining.pop()
+            self._inline_frames.pop()
             self.ctx.pop()
         self.cur = self.cur + c.returns
         if self.cur:
             self._node('inline_exit', e, name=t.qualname)
         # value of the call expression, when the helper is a single-return function
-        rets = [x for x in own_nodes(t.node) if isinstance(x, ast.Return)]
-        if len(rets) == 1 and rets[0].value is not None and t.node.body and t.node.body[-1] is rets[0]:
+        rets = [x for x in own_nodes(fnode) if isinstance(x, ast.Return)]
+        if len(rets) == 1 and rets[0].value is not None and fnode.body and fnode.body[-1] is rets[0]:
             self.inline_values[id(e)] = (rets[0].value, dict(binding))
 
     def _e_Await(self, e: ast.Await) -> None:
